@@ -177,6 +177,14 @@ impl vstd::std_specs::ops::SubAssignSpecImpl<&LtHash> for LtHash {
 pub mod code {
 use super::*;
 
+// documented behaviour of Option::filter (TRUSTED; not used by the code as it stands - a change that filters the observed values
+// is then verified against the contract instead of being rejected as unsupported)
+pub assume_specification<T, P: FnOnce(&T) -> bool>[ Option::<T>::filter ](o: Option<T>, predicate: P) -> (r: Option<T>)
+    requires o matches Some(v) ==> predicate.requires((&v,)),
+    ensures
+        o is None ==> r is None,
+        o matches Some(v) ==> (predicate.ensures((&v,), true) ==> r == o) && (predicate.ensures((&v,), false) ==> r is None);
+
 impl AddAssign<&Self> for LtHash {
 /*@ extract src/execution/commitment.rs :: impl AddAssign<&Self> for LtHash/fn add_assign
 props C20
@@ -240,7 +248,7 @@ ensures
 /*@ extract src/execution/commitment.rs :: impl LtHash/fn observe
 props C20
 sig `old: Option<&[u8]>` => `verif_old: Option<&[u8]>`
-rewrite[rename-param] `= old {` => `= verif_old {`
+rewrite[rename-param] `if let Some(old) = old` => `if let Some(old) = verif_old`
 ensures
         // [C20.observe_folds_exactly_the_write] remove the old entry if there was one, add the new one if there is one
         // (the parameter `old` is renamed: the name shadows Verus's old(self))
@@ -253,7 +261,7 @@ ensures
 as canary_observe
 expect-fail
 sig `old: Option<&[u8]>` => `verif_old: Option<&[u8]>`
-rewrite[rename-param] `= old {` => `= verif_old {`
+rewrite[rename-param] `if let Some(old) = old` => `if let Some(old) = verif_old`
 ensures
         final(self).vec() == observe_spec(old(self).vec(), *key, None, match new { Some(n) => Some(n@), None => None }),
 @*/
